@@ -163,5 +163,69 @@ fn main() {
         let p2 = Profile::general();
         ck.prop_export(name_b, n / 4, || case(12), |c| oracle(&p2, &pools, flag, c), |c| Case { graph: c.graph.export(&p2), ..c.clone() });
     }
+    // High fan-out: one temporary value consumed by hundreds of operators (the
+    // executor's per-value use counts are small integers), with and without a
+    // second use by the same operator. Enumerated, not random.
+    std::env::set_var("RTEN_USE_POOL", "1");
+    let pg = Profile::general();
+    let fanouts: Vec<(usize, bool)> = [1usize, 2, 100, 127, 128, 129, 200, 254, 255, 256, 257, 258, 300, 511, 512, 513, 600]
+        .iter()
+        .flat_map(|n| [(*n, false), (*n, true)])
+        .collect();
+    ck.enumerate(
+        "high-fanout",
+        true,
+        fanouts.into_iter().map(|(n, twice)| fanout_case(n, twice)),
+        |c| oracle(&pg, &pools, "1", c),
+    );
     ck.finish();
+}
+
+/// `t = Relu(in0)`; n operators each consume `t` (once, or twice as
+/// `Add(t, t)`); their outputs are summed pairwise into one output, and `t`
+/// itself is requested as an output too.
+fn fanout_case(n: usize, twice: bool) -> Case {
+    use vc_onnxgen::model::*;
+    let mut nodes = vec![NodeDef::new("Relu", "relu", &["in0"], &["t"])];
+    let mut values = vec![
+        V { name: "in0".into(), dtype: DType::F32, shape: vec![3], mag: 4.0, kind: VKind::Input, random: false },
+        V { name: "t".into(), dtype: DType::F32, shape: vec![3], mag: 4.0, kind: VKind::Inter, random: false },
+    ];
+    let mut op_types = vec!["Relu".to_string()];
+    let mut acc = String::new();
+    for i in 0..n {
+        let u = format!("u{i}");
+        if twice {
+            nodes.push(NodeDef::new("Add", &format!("use{i}"), &["t", "t"], &[&u]));
+            op_types.push("Add".into());
+        } else {
+            nodes.push(NodeDef::new(if i % 2 == 0 { "Neg" } else { "Abs" }, &format!("use{i}"), &["t"], &[&u]));
+            op_types.push(if i % 2 == 0 { "Neg" } else { "Abs" }.into());
+        }
+        values.push(V { name: u.clone(), dtype: DType::F32, shape: vec![3], mag: 8.0, kind: VKind::Inter, random: false });
+        if acc.is_empty() {
+            acc = u;
+        } else {
+            let s = format!("s{i}");
+            nodes.push(NodeDef::new("Max", &format!("max{i}"), &[&acc, &u], &[&s]));
+            op_types.push("Max".into());
+            values.push(V { name: s.clone(), dtype: DType::F32, shape: vec![3], mag: 8.0, kind: VKind::Inter, random: false });
+            acc = s;
+        }
+    }
+    let graph = GraphDef {
+        nodes,
+        initializers: vec![],
+        inputs: vec![ValueInfo::new("in0", DType::F32, vec![Dim::Fixed(3)])],
+        outputs: vec![ValueInfo { name: acc.clone(), dtype: Some(DType::F32), shape: None }, ValueInfo { name: "t".into(), dtype: Some(DType::F32), shape: None }],
+        value_info: vec![],
+    };
+    let built = Built {
+        model: ModelDef::new(graph),
+        inputs: vec![("in0".to_string(), TVal::F32 { shape: vec![3], data: vec![-1.5, 0.25, 2.0] })],
+        outputs: vec![acc, "t".to_string()],
+        values,
+        op_types,
+    };
+    Case { graph: GraphCase::Fixed(Box::new(built)), owned_mask: 1, order: vec![] }
 }
